@@ -79,6 +79,5 @@ HARNESSES_LHNEW = [
     read_h("lh7", ["REAL_LH7"], 258, tier="thorough", timeout=1800),
     read_h("lhx", ["REAL_LHX"], 258),
     read_h("hb9", ["HB=9", "OB=4"], 258, real_outbyte=True, tier="thorough", timeout=1800),
-    read_h("lk.hb10", ["HB=10", "OB=6", "LK"], 514, real_outbyte=True, tier="thorough", timeout=1800),
 ]
 HARNESSES = HARNESSES_LHNEW
